@@ -223,6 +223,15 @@ def run(rep, tier, seed):
                                                               "model_text": unhx(b) if i >= 0 and not b.startswith("<") and " " not in b else b})
         ndis += len(d)
     if ndis and not found:
+        # the property says "a deterministic function": a disagreeing input that does not always get the same answer is a failing input
+        for sub, ls, d in alld:
+            nd = vlib.nondeterministic(sub, [ls[i] for i, _, _ in d[:6] if i >= 0])
+            if nd:
+                rep.violation("%s is not a function of its inputs: the same input gives %s" % (sub, [unhx(a) if " " not in a and not a.startswith("<") else a for a in nd[1]][:3]),
+                              {"kind": "nondeterministic", "sub": sub, "input_line": nd[0], "answers": nd[1]})
+                found = True
+                break
+    if ndis and not found:
         # a disagreement where the model says Fail but the implementation produced a command is a failing input of the property itself
         for sub, ls, d in alld:
             for i, a, b in d:
